@@ -259,7 +259,30 @@ def convex_variant(rng, case, res):
     return limit_cost(c)
 
 
+def ring_case(rng):
+    """list 1 all around in RA in one declination band, small chunksize, pairs straddling RA 0/360: the RA walk of
+    getbounds goes at most one cell beyond the seam"""
+    L = rng.choice([2.0, 5.0, 10.0, 20.0])
+    cs = L * rng.choice([1.01, 1.01, 1.2, 2.0, 3.0])
+    d0 = rng.uniform(-80.0, 80.0)
+    n1 = rng.randint(6, 16)
+    ra1 = [rng.random() * 360.0 for _ in range(n1)]
+    dec1 = [max(-89.9, min(89.9, d0 + rng.uniform(-2, 2) * L)) for _ in range(n1)]
+    ra2, dec2 = [], []
+    for _ in range(8):
+        a = (norm_ra(rng.uniform(-1.5, 1.5) * L / max(math.cos(d0 * D2R), 0.05)), max(-89.9, min(89.9, d0 + rng.uniform(-1, 1) * L)))
+        b = offset_point(a[0], a[1], L * (1 - rng.choice([1e-3, 1e-2, 0.1])), rng.choice([90, 270, 80, 100, 260, 280]))
+        ra1.append(a[0])
+        dec1.append(a[1])
+        ra2.append(b[0])
+        dec2.append(b[1])
+    return limit_cost({'fam': 'smallchunk', 'ra1': ra1, 'dec1': dec1, 'ra2': ra2, 'dec2': dec2, 'L': L, 'chunksize': cs,
+                       'maxmatch': rng.choice([0, 0, 1, 2])})
+
+
 def gen_case(rng, fam):
+    if fam == 'smallchunk' and rng.random() < 0.3:
+        return ring_case(rng)
     if fam == 'polebound':
         return polebound_case(rng)
     if fam == 'highdec':
@@ -463,7 +486,14 @@ def diagnose(case, res):
             u2 = sum(1 for a, b, x in sel if b == j and x <= sep[i][j])
             if u1 < k and u2 < k:
                 un.append((i, j))
-        d['missing'] = un     # left out although neither endpoint is used k times by no-farther pairs
+        # left out although neither endpoint is used k times by no-farther pairs: either the pair never was a candidate
+        # (its list-2 point is not in the cell looked up for the list-1 point: a coverage failure) or the selection is wrong
+        rec0 = res.get('rec') or {}
+        chl = {(a, b): m for a, b, m in rec0.get('chunklist', [])}
+        cells = rec0.get('cells') or []
+        noncand = [(i, j) for (i, j) in un if i < len(cells) and j not in chl.get(tuple(cells[i]), [])]
+        d['missing'] = noncand if (noncand or not cells) else []
+        d['greedy_left_out_unsaturated'] = [p_ for p_ in un if p_ not in noncand]
         d['overused'] = [i for i in set(ok['m1']) if ok['m1'].count(i) > k] + [j for j in set(ok['m2']) if ok['m2'].count(j) > k]
     rec = res.get('rec') or {}
     dropped = [k for k, b in enumerate(rec.get('bounds') or []) if b is None]
